@@ -204,9 +204,13 @@ type world struct {
 	pool   []*censorgen.Stmt
 	junk   []string
 	byKind map[string][]int
+	// all = pool followed by the row-count relatives of the pool's INSERT ... VALUES statements (ID = index in all).
+	// The relatives are not part of the pool: batches, configurations and the proxy layer's workload do not change.
+	all  []*censorgen.Stmt
+	rels map[int][]int // pool statement -> its relatives
 }
 
-func (w *world) input(id int) Input { return Input{S: w.pool[id]} }
+func (w *world) input(id int) Input { return Input{S: w.all[id]} }
 
 // partner returns the statement made from / the source of statement id (sibling or cousin), or -1.
 func (w *world) partner(id int) int {
@@ -309,7 +313,7 @@ func (w *world) predicates(h Handler, in Input) []predCheck {
 		out = append(out, predCheck{h.Kind, h.Tables, t, rel})
 	}
 	for _, p := range h.Patterns {
-		t, rel := patternMatches(p.Pat, w.pool[p.SrcID], in.S)
+		t, rel := patternMatchesIn(h.Kind, p.Pat, w.all[p.SrcID], in.S)
 		out = append(out, predCheck{h.Kind, []Rule{p}, t, rel + ":gen=" + genOf(p.Pat) + ":expr=" + p.Pat.Expr})
 	}
 	return out
@@ -355,7 +359,7 @@ func (w *world) attribute(cfg *Config, in Input, text string) (sig string, detai
 // check evaluates one configuration on one input through the real firewall (all formatting variants) and compares.
 // vs lists the formatting variants to run (vs[0] is the reference spelling).
 func (w *world) check(o *outcome, c *acracensor.AcraCensor, cfg *Config, in Input, cfgTag string, vs []int) {
-	want := Expect(cfg, in, w.pool)
+	want := Expect(cfg, in, w.all)
 	if in.S == nil {
 		vs = []int{0}
 	}
@@ -658,6 +662,109 @@ func (w *world) patternPhase(r *ev.Run, masksPer int) {
 	})
 }
 
+// derive lists the patterns tried for one source statement: its %%KIND%% placeholder, the statement itself, and every
+// subset of its sites when there are at most masksPer subsets, else masksPer random subsets.
+func derive(s *censorgen.Stmt, g *censorgen.G, masksPer int) []censorgen.Pattern {
+	pats := []censorgen.Pattern{s.DeriveWhole(), s.Derive(censorgen.Mask{})}
+	if n := len(s.Sites); n > 0 && n < 30 && (1<<uint(n))-1 <= masksPer {
+		for bits := 1; bits < 1<<uint(n); bits++ { // every subset of sites
+			m := censorgen.Mask{}
+			for b := 0; b < n; b++ {
+				if bits&(1<<uint(b)) != 0 {
+					m[b] = 0
+				}
+			}
+			pats = append(pats, s.Derive(m))
+		}
+	} else {
+		for k := 0; k < masksPer; k++ {
+			pats = append(pats, s.Derive(g.RandomMask(s)))
+		}
+	}
+	return pats
+}
+
+// rowsPhase: INSERT ... VALUES patterns against statements with ANOTHER NUMBER OF ROWS. For every INSERT ... VALUES
+// statement of the pool: patterns derived from it (and from its relatives with one more row) are put alone into
+// [allow: p, denyall] and [deny: p] and asked about the statement's row-count relatives (a copy of a row appended, a
+// row matching no pattern row appended / prepended / inserted, a wider row appended, first / last row removed).
+// Demanded (allow direction only, see patternMatchesIn): a statement with a row that matches no row of the pattern, and
+// any other list of rows than that of a placeholder-free pattern, is not admitted; a pattern matches its own source
+// whatever the number of rows (both directions).
+func (w *world) rowsPhase(r *ev.Run, masksPer int) {
+	srcs := []int{}
+	for _, s := range w.pool {
+		if len(w.rels[s.ID]) > 0 {
+			srcs = append(srcs, s.ID)
+		}
+	}
+	parallel(r, len(srcs), func(i int) *outcome {
+		o := newOutcome()
+		s := w.pool[srcs[i]]
+		rng := rand.New(rand.NewSource(w.seed*3_000_017 + int64(i)*17 + 3))
+		g := &censorgen.G{R: rng}
+		o.count("rows_sources")
+		o.count(fmt.Sprintf("rows_sources_with_%d_rows", s.NRows()))
+		type job struct {
+			src     *censorgen.Stmt
+			targets []int
+		}
+		jobs := []job{{s, append([]int{s.ID}, w.rels[s.ID]...)}}
+		for _, id := range w.rels[s.ID] {
+			if rel := w.all[id]; rel.Rows.Kind == "copy-appended" || rel.Rows.Kind == "other-appended" {
+				// patterns with one row more than the pool statement: against themselves, the statement and its other relatives
+				jobs = append(jobs, job{rel, append([]int{rel.ID, s.ID}, w.rels[s.ID]...)})
+			}
+		}
+		for ji, j := range jobs {
+			seen := map[string]bool{}
+			pats := derive(j.src, g, masksPer)
+			for pi := range pats {
+				p := &pats[pi]
+				if seen[p.Text] {
+					continue
+				}
+				seen[p.Text] = true
+				for _, hk := range []string{"allow", "deny"} {
+					cfg := &Config{IgnoreParseError: false, Handlers: []Handler{{Kind: hk, Patterns: []Rule{{Kind: "pattern", Text: p.Text, SrcID: j.src.ID, Pat: p}}}}}
+					if hk == "allow" {
+						cfg.Handlers = append(cfg.Handlers, Handler{Kind: "denyall"})
+					}
+					c, err := load(cfg)
+					if err != nil {
+						o.inconcl = append(o.inconcl, fmt.Sprintf("derived pattern not loaded: %q: %v", p.Text, err))
+						o.count("pattern_load_failed")
+						continue
+					}
+					o.count("rows_patterns")
+					o.count(fmt.Sprintf("rows_patterns_of_%d_rows", j.src.NRows()))
+					for k, tid := range j.targets {
+						if tid == j.src.ID && k > 0 {
+							continue
+						}
+						t, rel := patternMatchesIn(hk, p, j.src, w.all[tid])
+						if x := strings.Index(rel, ":literal-in"); x > 0 {
+							rel = rel[:x]
+						}
+						o.count("rows_relation:" + rel)
+						switch {
+						case t == No && strings.HasPrefix(rel, "rows:"):
+							o.count("rows_decided_not_admitted")
+							o.setAdd("rows_decided_relations", rel)
+						case t == Yes && tid == j.src.ID:
+							o.count("rows_decided_self_match")
+						}
+						vs := []int{0, 1 + (i+pi+k)%(censorgen.NVariants-1)}
+						w.check(o, c, cfg, w.input(tid), fmt.Sprintf("rows-%d-%d-%d-%s", i, ji, pi, hk), vs)
+					}
+					c.ReleaseAll()
+				}
+			}
+		}
+		return o
+	})
+}
+
 // newWorld generates the statement pool and the unparseable strings of a seed. Generator hygiene (not a verdict):
 // only statements Acra's parser knows and junk it refuses are kept; what was dropped is returned for the evidence.
 func newWorld(seed int64, poolSize int) (w *world, refused []string, junkAccepted int) {
@@ -690,6 +797,22 @@ func newWorld(seed int64, poolSize int) (w *world, refused []string, junkAccepte
 			continue
 		}
 		w.junk = append(w.junk, j)
+	}
+	// row-count relatives (own random stream: the pool of a seed stays what it was)
+	w.all = append([]*censorgen.Stmt{}, w.pool...)
+	w.rels = map[int][]int{}
+	gr := &censorgen.G{R: rand.New(rand.NewSource(seed*37 + 1009))}
+	for _, s := range w.pool {
+		for _, rel := range gr.RowRelatives(s) {
+			if _, err := parser.Parse(rel.Canon); err != nil {
+				refused = append(refused, rel.Canon)
+				continue
+			}
+			rel.ID = len(w.all)
+			rel.FixVariants()
+			w.all = append(w.all, rel)
+			w.rels[s.ID] = append(w.rels[s.ID], rel.ID)
+		}
 	}
 	return w, refused, junkAccepted
 }
@@ -730,12 +853,15 @@ func Run(r *ev.Run) {
 		"rules are built FROM the statements (query rule = a formatting variant of a pool statement; table rule = a table name; pattern = the statement with a chosen subset of literals/IN-lists/columns/WHERE/sub-selects replaced by placeholders, or its %%KIND%% placeholder) so whether a rule matches is known by construction; " +
 		"a case is non-trivial when the documented chain semantics decide it (no 'not decided' predicate on the way) and the real verdict of every formatting variant run agrees with it " +
 		"(quick: all 6 variants of every statement; thorough: all 6 for 12 statements of each configuration, the reference spelling and one other variant for the remaining 22); " +
-		"distinct_nontrivial counts distinct (handler-kind chain shape, rule kind that decided, statement kind, verdict) tuples"
+		"distinct_nontrivial counts distinct (handler-kind chain shape, rule kind that decided, statement kind, verdict) tuples; " +
+		"rows phase: every INSERT ... VALUES statement of the pool gets row-count relatives (copy of a row appended; a row whose literals differ from every row's literal in the same column appended / prepended / inserted; a wider row appended; first / last row removed) and " +
+		"patterns derived from the statement and from its relatives with one more row are asked, alone in [allow: p, denyall] and [deny: p], about the statement and all its relatives"
 	r.Assumptions = []string{
 		"the crypto library is not involved in this layer",
 		"statements come from a generator restricted to the grammar subset Acra's MySQL-dialect parser accepts (checked at start; a generated statement Acra's parser refuses is dropped and counted, never judged)",
 		"table rules are judged only for tables named directly in FROM (joins, parenthesised lists) of a SELECT or as INSERT target; occurrences only inside sub-selects, UPDATE/DELETE targets, UNION branches and statements without a plain table in FROM are observed and reported as not decided",
 		"%%COLUMN%% is derived with its qualifier kept (t1.id -> t1.%%COLUMN%%); comments inside a statement are not formatting variants (only margin comments are)",
+		"the number of VALUES rows an INSERT pattern stands for is documented nowhere: only what is certain is judged, for allow rules: a statement with a row that matches no row of the pattern (other literal in a column where every pattern row spells one out, or another number of values) and a statement with any other list of rows than that of a placeholder-free pattern is not admitted; additional rows that each match a pattern row, missing rows under a generalised pattern and all row-count relatives under deny patterns are observed and counted only",
 		"the proxy layer (forwarding, pending-query queue) is a separate part of this monitor (ProxyLayer)",
 	}
 	if os.Getenv("VERIF_LOGS") == "" {
@@ -758,6 +884,10 @@ func Run(r *ev.Run) {
 	}
 	r.Count("pool_statements", int64(len(w.pool)))
 	r.Count("pool_unparseable_strings", int64(len(w.junk)))
+	r.Count("row_count_relatives", int64(len(w.all)-len(w.pool)))
+	for _, s := range w.all[len(w.pool):] {
+		r.SetAdd("row_count_relative_kinds", s.Rows.Kind)
+	}
 
 	t0 := time.Now()
 	w.chainPhase(r, r.Pick(300, 20000), 40, r.Pick(40, 12))
@@ -765,6 +895,9 @@ func Run(r *ev.Run) {
 	t0 = time.Now()
 	w.patternPhase(r, r.Pick(7, 31))
 	r.Extra("wall_pattern_phase_s", time.Since(t0).Seconds())
+	t0 = time.Now()
+	w.rowsPhase(r, r.Pick(7, 31))
+	r.Extra("wall_rows_phase_s", time.Since(t0).Seconds())
 
 	r.Extra("formatting_variants", censorgen.VariantNames)
 	r.RequireAtLeast("configs", int64(r.Pick(250, 18000)))
@@ -776,6 +909,11 @@ func Run(r *ev.Run) {
 	r.RequireAtLeast("patterns_derived", 1000)
 	r.RequireAtLeast("pattern_relation:self", 500)
 	r.RequireAtLeast("pattern_relation:otherkind", 200)
+	r.RequireAtLeast("rows_sources", 20)
+	r.RequireAtLeast("rows_decided_not_admitted", 300)
+	r.RequireAtLeast("rows_decided_self_match", 200)
+	r.RequireSetAtLeast("row_count_relative_kinds", len(censorgen.RowRelKinds))
+	r.RequireSetAtLeast("rows_decided_relations", 5)
 	r.RequireSetAtLeast("deciders", 9)
 	r.RequireSetAtLeast("statement_shapes", 9)
 	if ProxyLayer != nil {
